@@ -9,6 +9,7 @@
 package eval
 
 //@ func contains C04 C05 C20
+//@   requires [comparable-target] (not (uncmp $target))
 //@   ensures [member] (= $ret0 (exists ((k Int)) (and (<= 0 k) (< k (len $params)) (= (idx $params k) $target))))
 //@   loop 1 (rangeindex)
 //@     invariant [range] (and (<= -1 $rangeindex) (< $rangeindex (len $params)))
@@ -347,7 +348,7 @@ package eval
 //@   requires [ctx] (and (not (= $ctx 0)) (not (= (fld $ctx VariableFetcher) 0)))
 //@   ensures [error-identity] (=> (not (= $ret1 ENil)) (= $ret1 (heap last.err)))
 //@   ensures [frame] (forall ((r Int)) (! (=> (< r (old (next))) (= (select (heap E_Value) r) (select (old (heap E_Value)) r))) :pattern ((select (heap E_Value) r))))
-//@   assigns next E_Value sent.* dyn.* last.err
+//@   assigns next E_Value sent.* dyn.* last.err inv.*
 //@   loop 1 (i)
 //@     invariant [position] (and (<= 0 $i) (<= $i (len (fld $e nodes))) (=> (< $i (len (fld $e nodes))) (and (vis $i) (= $osTop (- (pre $i) 1)))))
 //@     invariant [stack] (and (fresh $os) (= (off $os) 0) (>= (len $os) (fld $e maxStackSize)) (>= (len $os) 8))
@@ -360,3 +361,51 @@ package eval
 //@             (= $i (ite (= (KIND $curt) 4) (+ c 2) c)) (>= $i $i@1) (= $osTop (- (fld $curt osTop) 1))))
 //@     invariant [frame] (forall ((r Int)) (! (=> (< r (old (next))) (= (select (heap E_Value) r) (select (old (heap E_Value)) r))) :pattern ((select (heap E_Value) r))))
 //@     decreases (- (len (fld $e nodes)) $i)
+
+// ---------------------------------------------------------------------------
+// C04 / C05 — the TryEval proxies.  Oracles (DESIGN 2.2): interface method calls are
+// uninterpreted functions inv_<Method>_<i>(receiver, args...) with a ghost call counter
+// inv.<Method>.n; calls through a function value are dynres_<i>_<sort>(fn, k) with the ghost
+// call counter dyn.n and callee log dyn.fn.
+//@ macro (DNEVAL) (V_dne (global DNE))
+//@ macro (PMASK $p) (mod (div (fld $p flag) 32) 4)
+
+//@ func matchesShortCircuit C04 C05
+//@   requires [node] (not (= $n 0))
+//@   ensures [table] (= $ret0 (ite (= (PMASK $n) 1) (= $res (V_bool false)) (ite (= (PMASK $n) 2) (= $res (V_bool true)) (= $res (DNEVAL)))))
+//@   assigns
+
+//@ func fetchVariableValueProxy C04 C05 C11
+//@   requires [node] (and (not (= $n 0)) (not (= $ctx 0)) (not (= (fld $ctx VariableFetcher) 0)) (is.string (fld $n value)))
+//@   ensures [unavailable-is-DNE] (let ((f (fld $ctx VariableFetcher)) (k (fld $n varKey)) (s (p_string (fld $n value))))
+//@      (=> (not (inv_Cached_0 f k s)) (and (= $ret0 (DNEVAL)) (= $ret1 ENil) (= (heap inv.Get.n) (old (heap inv.Get.n))))))
+//@   ensures [available-is-Get] (let ((f (fld $ctx VariableFetcher)) (k (fld $n varKey)) (s (p_string (fld $n value))))
+//@      (=> (inv_Cached_0 f k s) (and (= $ret0 (inv_Get_0 f k s)) (= $ret1 (inv_Get_1 f k s)) (= (heap inv.Get.n) (+ (old (heap inv.Get.n)) 1)))))
+//@   assigns inv.* last.err
+
+//@ macro (ISAND $n) (and (or (= (KIND $n) 3) (= (KIND $n) 4)) (or (= (p_string (fld $n value)) "and") (= (p_string (fld $n value)) "&") (= (p_string (fld $n value)) "&&")))
+//@ macro (ISOR $n) (and (or (= (KIND $n) 3) (= (KIND $n) 4)) (or (= (p_string (fld $n value)) "or") (= (p_string (fld $n value)) "|") (= (p_string (fld $n value)) "||")))
+//@ macro (HAS $params $v) (exists ((k Int)) (and (<= 0 k) (< k (len $params)) (= (idx $params k) $v)))
+
+//@ func executeOperatorProxy C04 C05
+//@   requires [node] (and (not (= $n 0)) (not (= (fld $n operator) 0)) (=> (or (= (KIND $n) 3) (= (KIND $n) 4)) (is.string (fld $n value))))
+//@   ensures [and-false] (=> (and (ISAND $n) (HAS $params (V_bool false))) (and (= $ret0 (V_bool false)) (= $ret1 ENil) (= (heap dyn.n) (old (heap dyn.n)))))
+//@   ensures [or-true] (=> (and (not (and (ISAND $n) (HAS $params (V_bool false)))) (ISOR $n) (HAS $params (V_bool true)))
+//@        (and (= $ret0 (V_bool true)) (= $ret1 ENil) (= (heap dyn.n) (old (heap dyn.n)))))
+//@   ensures [dne-poisons] (=> (and (not (and (ISAND $n) (HAS $params (V_bool false)))) (not (and (ISOR $n) (HAS $params (V_bool true)))) (HAS $params (DNEVAL)))
+//@        (and (= $ret0 (DNEVAL)) (= $ret1 ENil) (= (heap dyn.n) (old (heap dyn.n)))))
+//@   ensures [otherwise-operator] (=> (and (not (and (ISAND $n) (HAS $params (V_bool false)))) (not (and (ISOR $n) (HAS $params (V_bool true)))) (not (HAS $params (DNEVAL))))
+//@        (and (= (heap dyn.n) (+ (old (heap dyn.n)) 1)) (= (select (heap dyn.fn) (old (heap dyn.n))) (fld $n operator))
+//@             (= $ret0 (dynres_0_Val (fld $n operator) (old (heap dyn.n)))) (= $ret1 (dynres_1_Err (fld $n operator) (old (heap dyn.n))))))
+//@   assigns dyn.* last.err
+
+//@ func getNodeValueProxy C04 C05
+//@   requires [node] (and (not (= $n 0)) (not (= $ctx 0)) (not (= (fld $ctx VariableFetcher) 0)) (=> (not (= (KIND $n) 1)) (is.string (fld $n value))))
+//@   ensures [constant] (=> (= (KIND $n) 1) (and (= $ret0 (fld $n value)) (= $ret1 ENil) (= (heap inv.Get.n) (old (heap inv.Get.n)))))
+//@   assigns inv.* last.err
+
+//@ func Expr.EvalBool C01 C06
+//@   requires [wf] (WF $e)
+//@   requires [ctx] (and (not (= $ctx 0)) (not (= (fld $ctx VariableFetcher) 0)))
+//@   ensures [frame] (forall ((r Int)) (! (=> (< r (old (next))) (= (select (heap E_Value) r) (select (old (heap E_Value)) r))) :pattern ((select (heap E_Value) r))))
+//@   assigns next E_Value sent.* dyn.* last.err inv.*
